@@ -262,3 +262,85 @@ func (b *bodyCtx) knownNil(at ast.Node, want string) bool {
 	}
 	return false
 }
+
+// c03AdvancePrecision — C03-R12: advances are the one kind of amount the
+// calculation sums as stored (PaymentDetails.totalAdvance adds a.Amount and
+// only then lowers it to the currency's decimals for presentation; lines,
+// discounts and charges are recomputed and rounded by the rule first). A
+// fixed advance that is rewritten outside the calculation — currency
+// conversion — must therefore come back at the precision it had: every
+// Upscale(k) in the expression assigned to an advance's Amount is undone by a
+// Downscale(k) of the same k, or the hidden decimals enter totals.advance and
+// the presented advances no longer add up to it.
+func c03AdvancePrecision(c *core.Ctx) {
+	p := c.P
+	c.Rule("C03-R12", "a fixed advance rewritten outside the calculation returns to the precision it had", 1)
+	n := 0
+	for _, fd := range p.Funcs(p.Pkg("bill")) {
+		if p.IsTestFile(fd.Decl.Pos()) || fd.Decl.Body == nil {
+			continue
+		}
+		info := fd.Pkg.TypesInfo
+		idx := 0
+		ast.Inspect(fd.Decl.Body, func(nd ast.Node) bool {
+			as, ok := nd.(*ast.AssignStmt)
+			if !ok || len(as.Lhs) != len(as.Rhs) {
+				return true
+			}
+			for i, l := range as.Lhs {
+				se, ok := ast.Unparen(l).(*ast.SelectorExpr)
+				if !ok || se.Sel.Name != "Amount" {
+					continue
+				}
+				t := info.TypeOf(se.X)
+				if t == nil {
+					continue
+				}
+				if pt, ok := t.Underlying().(*types.Pointer); ok {
+					t = pt.Elem()
+				}
+				if core.TypeString(t) != "pay.Advance" {
+					continue
+				}
+				ups, downs := map[string]int{}, map[string]int{}
+				ast.Inspect(as.Rhs[i], func(m ast.Node) bool {
+					if call, ok := m.(*ast.CallExpr); ok && len(call.Args) == 1 {
+						if fn := core.Callee(info, call); isAmountMethod(fn, "Upscale") {
+							ups[constOrText(info, call.Args[0])]++
+						} else if isAmountMethod(fn, "Downscale") {
+							downs[constOrText(info, call.Args[0])]++
+						}
+					}
+					return true
+				})
+				if len(ups) == 0 {
+					continue
+				}
+				n++
+				idx++
+				ok = true
+				for k, v := range ups {
+					if downs[k] != v {
+						ok = false
+					}
+				}
+				c.Ob("C03-R12", fmt.Sprintf("%s#advance-amount%d", fd.Name(), idx), as.Pos(), ok,
+					"the advance's amount is raised in precision (Upscale) and not lowered again by the same number of decimals: totalAdvance adds advances as stored, so the hidden decimals enter totals.advance and due while each advance is presented rounded — the presented advances no longer add up to the presented total")
+			}
+			return true
+		})
+	}
+	c.Ob("C03-R12", "advance-rewrites#found", token.NoPos, n >= 1, "no rewriting of an advance's amount with raised precision was found in package bill (convertPaymentDetailsInto expected)")
+}
+
+func constOrText(info *types.Info, e ast.Expr) string {
+	if tv, ok := info.Types[e]; ok && tv.Value != nil {
+		return tv.Value.ExactString()
+	}
+	if id, ok := ast.Unparen(e).(*ast.Ident); ok {
+		if v, ok := info.Uses[id].(*types.Var); ok {
+			return fmt.Sprintf("var:%s@%d", v.Name(), v.Pos())
+		}
+	}
+	return types.ExprString(e)
+}
